@@ -250,7 +250,15 @@ func c11Server(run *Run, dir string) int {
 	xUp, xClose := upstreamFor("bolt")
 	defer xClose()
 	xl, xrc, xcl := listenerFor(xferListener, fmt.Sprintf("127.0.0.1:%d", freePort()), "bolt", "vh-router-x", "vh-up-x", xUp)
-	mu, err := startMOSN(dir, append(append([]*scenario{}, scs...), spares...), []v2.Listener{xl}, []*v2.RouterConfiguration{xrc}, []v2.Cluster{xcl})
+	// multi-listener groups (their listeners are added to handlers of their own later)
+	var mlClosers []func()
+	mlGroups, mlRouters, mlClusters := mlPlan(run.N(7, 20), &mlClosers)
+	defer func() {
+		for _, c := range mlClosers {
+			c()
+		}
+	}()
+	mu, err := startMOSN(dir, append(append([]*scenario{}, scs...), spares...), []v2.Listener{xl}, append([]*v2.RouterConfiguration{xrc}, mlRouters...), append([]v2.Cluster{xcl}, mlClusters...))
 	if err != nil {
 		fmt.Println(err)
 		return 2
@@ -465,6 +473,9 @@ func c11Server(run *Run, dir string) int {
 	}
 	sh.Close()
 	ann.Close()
+	if rc := c11Multi(run, mu, mlGroups, drain); rc != 0 {
+		return rc
+	}
 	return c11Transfer(run, mu, xl)
 }
 
